@@ -90,7 +90,7 @@ def make_grammar(tset):
     Terminal names carry the profile so that name order varies."""
     names = []
     for i, (ri, pr, pf, mk) in enumerate(tset):
-        names.append(f"T{(ri * 7 + pr) % 10}{'xyz'[i]}")
+        names.append(f"T{(ri * 7 + pr) % 10}{'xyzw'[i]}")
     subsets = []
     for n in range(1, len(tset) + 1):
         subsets += list(itertools.combinations(range(len(tset)), n))
